@@ -127,6 +127,7 @@ func genVC(P *Program, C *Contracts, S *Sorts, key string, pure map[*ssa.Functio
 		ex.note("assumed (not proved): " + key + " does not panic")
 	}
 	for _, fv := range fn.FreeVars {
+		S.registerReachable(fv.Type(), 0, map[types.Type]bool{})
 		v := f.havocVal(fv.Type(), "fv."+fv.Name())
 		v.NF = true
 		f.regs[fv] = v
